@@ -245,7 +245,11 @@ theorem sdf_file_roundtrip (rs : List SDRec) (d : Nat) (v : Version) (ls : List 
   | ok recs =>
     rw [hm] at h
     simp only [bind, Except.bind, pure, Except.pure] at h
-    cases h
+    have h' : ls = joinRecords recs := by
+      split at h
+      · cases h
+      · cases h; rfl
+    subst h'
     have hf := mapM_ok_forall2 _ rs recs hm
     -- the default bond code is the same for every record
     obtain ⟨dc, hdc⟩ : ∃ dc, codeOfBond d = some dc := by
